@@ -172,8 +172,13 @@ def gen_edit_ops(rng, cspec, labels, n_ops):
         elif r < 0.65:
             s = float(rng.randrange(0, 30))
             ops.append(["add", rng.choice(names), s, s + float(rng.randint(1, 6)), rng.choice(labels)])
-        elif r < 0.85:
+        elif r < 0.8:
             ops.append(["remove_random", rng.randrange(10 ** 6)])
+        elif r < 0.9:
+            # a unit far away from everything, added and taken out again (a mistake corrected): the continuum's units are
+            # what they were, only its bounds remember the outlier
+            s = float(rng.choice([-2 ** 27, 2 ** 27, -2 ** 25, 2 ** 30]))
+            ops.append(["touch_far", rng.choice(names), s, s + 64.0 * 2 ** 7, rng.choice(labels)])
         else:
             ops.append(["reset_bounds"])
     return ops
@@ -196,5 +201,8 @@ def apply_edit(continuum, op):
         if len(units) > 1:
             a, u = units[op[1] % len(units)]
             continuum.remove(a, u)
+    elif kind == "touch_far":
+        continuum.add(op[1], Segment(op[2], op[3]), op[4])
+        continuum.remove(op[1], [u for u in continuum[op[1]] if u.segment == Segment(op[2], op[3])][0])
     elif kind == "reset_bounds":
         continuum.reset_bounds()
